@@ -30,7 +30,7 @@ MIN_REACH = {
     "pipelines_reaped": {"quick": 120, "thorough": 2000},
     "fresh_process_steps": {"quick": 15, "thorough": 300},
     "batches_grown": {"quick": 600, "thorough": 10000},
-    "positions_compared": {"quick": 1500, "thorough": 25000},
+    "positions_compared": {"quick": 700, "thorough": 25000},
     "regrown_batches": {"quick": 20, "thorough": 300},
 }
 TIME_BUDGET = {"quick": 400, "thorough": 3400}
